@@ -40,6 +40,9 @@ def _real_call(c, da2, name, pos, want, tol_clause, **kw):
         g, w = float(got), float(want)
         if (g != g or abs(g) < 1e-2) and (w != w or abs(w) < 1e-2):
             return
+    if name in ("dm", "dpm", "dp"):
+        c.ensure_angle_eq(tol_clause, got, want)
+        return
     c.ensure_eq(tol_clause, got, want)
 
 
